@@ -538,7 +538,7 @@ func fresh(md protoreflect.MessageDescriptor) *threeEnvs {
 }
 
 type stepResult struct {
-	invalid   bool   // an invalid call that all three views reject with a panic (judged, not extended)
+	invalid   bool // an invalid call that all three views reject with a panic (judged, not extended)
 	why       string
 	pruned    bool   // references disagree: implementation-defined, not judged, not extended
 	violation string // non-empty: fast differs from agreeing references
